@@ -194,3 +194,21 @@ func init() {
 	n["syscall.Getenv"] = func(in *Interp, fr *frame, a []Value) Value { return TupleV{StrV{}, in.st.False} }
 	n["os.Getenv"] = func(in *Interp, fr *frame, a []Value) Value { return StrV{} }
 }
+
+func init() {
+	// time.LoadLocation reads tzdata: nondeterministic stub (error, or an opaque non-nil location)
+	nativeTable["time.LoadLocation"] = func(in *Interp, fr *frame, a []Value) Value {
+		name := a[0].(StrV)
+		lt := in.world.namedType("time", "Location")
+		if cs, ok := concStr(name); ok && (cs == "" || cs == "UTC") {
+			utc := in.prog.ImportedPackage("time").Var("UTC")
+			return TupleV{in.load(PtrV{C: in.global(utc)}, types.NewPointer(lt)), IfaceV{}}
+		}
+		if in.choice(2, "LoadLocation") == 0 {
+			return TupleV{PtrV{}, in.newErrorString("errors", in.strConst("unknown time zone"))}
+		}
+		c := in.newCell(lt)
+		in.store(PtrV{C: c.Kids[0]}, types.Typ[types.String], name)
+		return TupleV{PtrV{C: c}, IfaceV{}}
+	}
+}
